@@ -435,6 +435,16 @@ func init() {
 		return true
 	})
 
+	reg("net/http.NewRequestWithContext", "either err == nil and the request is a fresh non-nil object, or err != nil and the request is nil (as documented)", func(c *callCtx) bool {
+		x := c.x
+		r := x.allocRef(c.n, c.st, "httpreq")
+		e := x.fresh("newreq_err", c.resTypes[1])
+		ok := app("=", app("i.tag", e.S), "0")
+		c.res = []Term{{S: mkIte(ok, r, "0"), Sort: SInt, T: c.resTypes[0]}, e}
+		return true
+	})
+	specMods["net/http.NewRequestWithContext"] = func(p *Program, c *ssa.CallCommon) []string { return nil }
+
 	reg("github.com/prometheus/common/model.ParseDuration", "err == nil iff durationParses(s); then the result is durationOf(s), else 0", func(c *callCtx) bool {
 		x := c.x
 		x.vc.declFun("uf_dur_parses", []string{SStr}, SBool)
